@@ -379,11 +379,11 @@ pub fn number_loop_tail(input: Node, name: Option<(Ident, Span)>, step: Option<(
 }} // verus!
 fn main() {{}}
 """
-    return gen, [Obl("C10.number_loop.counter", ["C10", "C01", "C03"], fn="number_loop_tail",
+    return gen, [Obl("C10.number_loop.counter", ["C10", "C01", "C03", "C07"], fn="number_loop_tail",
                      desc="Parser::number_loop (tail): collision flag = lookup over all blocks of the function; a const or incompatible existing variable is rejected as counter; to/through flag from the grammar rule")], log
 
 
-UNITS.append(VUnit("c10_number_loop", ["C10", "C01", "C03"], "from-loop counter: collision lookup, const test", build_number_loop))
+UNITS.append(VUnit("c10_number_loop", ["C10", "C01", "C03", "C07"], "from-loop counter: collision lookup, const test", build_number_loop))
 
 
 # =====================================================================================================================
